@@ -189,7 +189,9 @@ def _huge_cases(tier):
     import os
 
     seed = int(os.environ.get("VERIF_SEED", "1") or "1")
-    for n in ([2**20 + 4097] if tier == "quick" else [2**20 + 4097, 2**21 + 1, 65537, 2**17 + 3001]):
+    from ..strategies import harvested_edge_sizes
+
+    for n in sorted(set([2**20 + 4097] if tier == "quick" else [2**20 + 4097, 2**21 + 1, 65537, 2**17 + 3001]) | set(harvested_edge_sizes(["simulation/taus/taus.py", "utils/interp.py"], cap=2**23 + 1, lo=4000))):
         yield {"n": n, "version": str(1 + seed % 3), "seed": seed}
 
 
